@@ -61,6 +61,12 @@ def luhnSpec (ds : List Nat) : Bool := luhnSum ds % 10 == 0
 
 /-! ### the documented conditions -/
 
+/-- all referenced fields exist -/
+def allResolved : List (Option FieldView) → Option (List FieldView)
+  | [] => some []
+  | none :: _ => none
+  | some f :: rest => (allResolved rest).map (f :: ·)
+
 /-- the members of the mapping validators' `raw` keys -/
 def keysOf : RawView → Option (List Str)
   | .pairs ks _ => some ks
@@ -96,7 +102,7 @@ def documented (v : V) (e : View) : Option Bool :=
       | none, _ => none
   | .mapEqual k =>
     -- all referenced fields are equal (under the class's transform)
-    match e.fields.mapM id with
+    match allResolved e.fields with
     | none => none
     | some [] => none
     | some (first :: rest) =>
@@ -114,7 +120,7 @@ def documented (v : V) (e : View) : Option Bool :=
     if !e.isSequence then none
     else match e.valueLen with
       | some n => some (decide (minimum ≤ (n : Int)))
-      | none => some (decide (minimum ≤ 0))
+      | none => none            -- a sequence element always has a list value
   | .hasAtMost maximum =>
     if !e.isSequence || maximum < 0 then none
     else match e.valueLen with
@@ -123,8 +129,7 @@ def documented (v : V) (e : View) : Option Bool :=
   | .hasBetween lo hi =>
     if !e.isSequence then none
     else
-      let n : Int := match e.valueLen with | some n => n | none => 0
-      some (decide (lo ≤ n ∧ n ≤ hi))
+      some (decide (lo ≤ lenOrZero e.valueLen ∧ lenOrZero e.valueLen ≤ hi))
   | .setWithKnownFields =>
     match e.raw with
     | .pairs ks false => some (ks.all (fun k => e.schemaKeys.contains k))
